@@ -148,8 +148,8 @@ func (s *scte35) SetHasPTS(flag bool) {
 // If HasPTS is false, then it will have no effect until it is set to true. Also this command has no
 // effect with a null splice command.
 func (s *scte35) SetPTS(pts gots.PTS) {
-	s.pts = pts
-	s.commandInfo.SetPTS(s.pts & 0x01ffffffff) // truncate to fit in 33 bits
+	s.pts = pts & 0x01ffffffff // truncate to fit in 33 bits
+	s.commandInfo.SetPTS(s.pts)
 	// pts adjustment will be zero since the difference between adjusted and command pts is zero
 }
 
